@@ -236,10 +236,36 @@ class Repo:
         """Texts `self.<name>` of attributes every store of which, anywhere in the package, is an integer-valued expression
         (integer literal, len(), int(), sums/differences/products of those or of the attribute itself).  Comparisons between
         such values may be rewritten with integer arithmetic (`a + 1 < b` is `not b < a + 2`), see sa.conds."""
-        if getattr(self, "_int_texts", None) is None:
+        return self._typed_texts("int")
+
+    @property
+    def seq_texts(self) -> set:
+        """Texts `self.<name>` of attributes every store of which, anywhere in the package, is a list / dict / str / bytes
+        valued expression (display, comprehension, list()/dict()/bytes()/bytearray()/str() call, text literal, sums of
+        those or of the attribute itself): their truthiness is `len(x) > 0`."""
+        return self._typed_texts("seq")
+
+    def _typed_texts(self, kind: str) -> set:
+        cache = "_int_texts" if kind == "int" else "_seq_texts"
+        if getattr(self, cache, None) is None:
             stores: dict[str, list] = {}
 
+            def is_seq(e, name) -> bool:
+                if isinstance(e, (ast.List, ast.Dict, ast.ListComp, ast.DictComp, ast.JoinedStr, ast.Tuple, ast.Set, ast.SetComp)):
+                    return True
+                if isinstance(e, ast.Constant):
+                    return isinstance(e.value, (str, bytes))
+                if isinstance(e, ast.Call) and isinstance(e.func, ast.Name) and e.func.id in ("list", "dict", "bytes", "bytearray", "str", "tuple", "set", "sorted"):
+                    return True
+                if isinstance(e, ast.BinOp) and isinstance(e.op, ast.Add):
+                    return is_seq(e.left, name) and is_seq(e.right, name)
+                if isinstance(e, ast.Attribute) and e.attr == name:
+                    return True
+                return False
+
             def is_int(e, name) -> bool:
+                if kind == "seq":
+                    return is_seq(e, name)
                 if isinstance(e, ast.Constant):
                     return isinstance(e.value, int) and not isinstance(e.value, bool)
                 if isinstance(e, ast.Call) and isinstance(e.func, ast.Name) and e.func.id in ("len", "int", "ord") and not e.keywords:
@@ -259,7 +285,7 @@ class Repo:
                         targets, value = n.targets, n.value
                     elif isinstance(n, (ast.AugAssign, ast.AnnAssign)):
                         targets, value = [n.target], n.value
-                        if isinstance(n, ast.AugAssign) and not isinstance(n.op, (ast.Add, ast.Sub, ast.Mult)):
+                        if isinstance(n, ast.AugAssign) and not isinstance(n.op, (ast.Add, ast.Sub, ast.Mult) if kind == "int" else (ast.Add,)):
                             value = None
                     elif isinstance(n, (ast.For, ast.comprehension, ast.With, ast.NamedExpr, ast.Delete)):
                         tl = [n.target] if hasattr(n, "target") else (n.targets if isinstance(n, ast.Delete) else [i.optional_vars for i in n.items if i.optional_vars is not None])
@@ -318,11 +344,12 @@ class Repo:
                           if isinstance(n, ast.Call) and isinstance(n.func, ast.Name) and n.func.id == "setattr")
             if in_tree > seen_in_methods or any("__dict__" in ast.dump(n) for mod in self.modules.values() for n in ast.walk(mod.tree) if isinstance(n, ast.Attribute) and n.attr == "__dict__" and isinstance(n.ctx, ast.Store)):
                 everything = True  # a setattr outside the methods looked at
-            self._int_texts = set()
+            result = set()
             if not everything:
-                self._int_texts = {f"self.{name}" for name, vals in stores.items()
-                                   if vals and all(v is not None and is_int(v, name) for v, _ in vals) and owners.get(name) and not (owners[name] & tainted)}
-        return self._int_texts
+                result = {f"self.{name}" for name, vals in stores.items()
+                          if vals and all(v is not None and is_int(v, name) for v, _ in vals) and owners.get(name) and not (owners[name] & tainted)}
+            setattr(self, cache, result)
+        return getattr(self, cache)
 
     # ------------------------------------------------------------------ loading
     def _load(self):
